@@ -26,6 +26,7 @@ import (
 	"github.com/agglayer/aggkit/reorgdetector"
 	aggsync "github.com/agglayer/aggkit/sync"
 	aggkittypes "github.com/agglayer/aggkit/types"
+	"github.com/ethereum/go-ethereum"
 	"github.com/ethereum/go-ethereum/common"
 	"github.com/ethereum/go-ethereum/crypto"
 	"verif/h/act"
@@ -188,6 +189,7 @@ type world struct {
 	everReplaced bool // some processed block was not canonical at some moment of this execution
 	zombieNotify map[*act.Gate]bool
 	inflight     int // detector check goroutines that have not returned yet
+	rpcErrors    int // transient RPC errors injected so far (budget 1)
 }
 
 type incarnation struct {
@@ -614,6 +616,18 @@ func (w *world) explore(incs []*incarnation) {
 				alts = append(alts, alt{g: g, mutate: true, kind: "mutate-then-gate"})
 			}
 		}
+		if w.rpcErrors < 1 {
+			// deviation: this RPC of the downloader / the detector fails once (an opaque transport error; for a header
+			// asked by number also "not found", which the downloader treats as "the block disappeared in a reorg, wait")
+			for _, g := range en {
+				if g.Comp == "1dl" || strings.HasPrefix(g.Comp, "5rd") {
+					alts = append(alts, alt{g: g, kind: "gate-fails"})
+					if g.Op == "HeaderByNumber" && g.Arg != "latest" && g.Arg != "finalized" && g.Arg != "safe" && g.Arg != "pending" {
+						alts = append(alts, alt{g: g, kind: "gate-not-found"})
+					}
+				}
+			}
+		}
 		canDetect := !w.detectBusy
 		if len(en) == 0 && canDetect && w.lastDetect != w.activity {
 			alts = append(alts, alt{kind: "detect"}) // default at quiescence: a detector check (its ticker fires)
@@ -654,6 +668,17 @@ func (w *world) explore(incs []*incarnation) {
 		case "mutate":
 			w.mutate(script[0])
 			script = script[1:]
+		case "gate-fails", "gate-not-found":
+			w.rpcErrors++
+			w.activity++
+			c.Witness("rpc_errors_injected")
+			err := errors.New("verif: transient rpc error")
+			if a.kind == "gate-not-found" {
+				err = fmt.Errorf("verif: %w", ethereum.NotFound)
+				c.Witness("rpc_not_found_injected")
+			}
+			c.Transition(1)
+			w.sched.Release(a.g, act.Directive{Err: err})
 		default:
 			if a.mutate {
 				w.mutate(script[0])
